@@ -57,6 +57,11 @@ def run_case(prop_id, case_dict, pins=None):
     t0 = time.time()
     out = dict(case=case_dict["name"], fn=case_dict["fn"], params=case_dict["params"], error=None)
     try:
+        zs = case_dict.get("z3_seed")
+        if zs:
+            import z3
+            z3.set_param("smt.random_seed", int(zs))
+            z3.set_param("sat.random_seed", int(zs))
         from sx import core, instrument, env as sxenv
         from sx.harness import SymEnv, load_repo
         mod = importlib.import_module("props." + prop_id)
@@ -95,7 +100,8 @@ def run_case(prop_id, case_dict, pins=None):
         res = core.explore(body, max_paths=case_dict.get("max_paths", 20000),
                            max_decisions=case_dict.get("max_decisions", 4000),
                            timeout_ms=case_dict.get("timeout_ms"),
-                           deadline=time.time() + float(os.environ.get("VERIF_CASE_DEADLINE_S", "900")),
+                           deadline=time.time() + float(os.environ.get("VERIF_CASE_DEADLINE_S") or
+                                                         ("3600" if os.environ.get("VERIF_TIER_ACTIVE") == "thorough" else "900")),
                            stop_file=case_dict.get("stop_file"))
         d = res.as_dict()
         out.update(d)
@@ -253,6 +259,9 @@ def main(argv=None):
 
     ctx = mp.get_context("spawn")
     try:
+        # (one process per case was tried and rejected: z3's run time on the wide integer queries of C10 varies by two
+        #  orders of magnitude with the process history either way -- 1 s vs 244 s vs 'unknown' -- so cases without a
+        #  verdict get a second run below instead)
         with cf.ProcessPoolExecutor(max_workers=min(a.jobs, max(1, len(cases))), mp_context=ctx,
                                     initializer=_worker_init) as ex:
             futs = {}
@@ -269,6 +278,35 @@ def main(argv=None):
                 r["need"] = list(c.need)
                 results.append(r)
                 handle_violations(r)
+        # ---- second opinion for cases that ended without a verdict (solver 'unknown', deadline, dead worker): z3's
+        # behaviour depends on what the (reused) worker process solved before, so such a case is run once more in a
+        # process of its own with another solver seed; only if that run is inconclusive too does the case count as such
+        if not real:
+            def _open(r):
+                return not r.get("violations") and (r.get("unknown") or r.get("error", "") and "worker died" in str(r.get("error"))
+                                                    or (r.get("limit") and "deadline" in str(r.get("limit"))))
+            again = [r for r in results if _open(r)][:8]
+            if again:
+                by_name = {c.name: c for c in cases}
+                with cf.ProcessPoolExecutor(max_workers=min(a.jobs, len(again)), mp_context=ctx, initializer=_worker_init,
+                                            max_tasks_per_child=1) as ex2:
+                    futs2 = {}
+                    for r in again:
+                        c = by_name[r["case"]]
+                        d = c.as_dict()
+                        d.update(max_paths=c.max_paths, max_decisions=c.max_decisions, timeout_ms=c.timeout_ms, stop_file=stop_file, z3_seed=7)
+                        futs2[ex2.submit(run_case, prop_id, d)] = (c, r)
+                    for f in cf.as_completed(futs2):
+                        c, old = futs2[f]
+                        try:
+                            r2 = f.result()
+                        except BaseException as e:
+                            continue
+                        r2["need"] = list(c.need)
+                        r2["retried"] = "first run ended with %s" % (old.get("unknown") or old.get("limit") or old.get("error"))
+                        if not _open(r2) or r2.get("violations"):
+                            results[results.index(old)] = r2
+                            handle_violations(r2)
     finally:
         try:
             os.remove(stop_file)
